@@ -252,7 +252,12 @@ class CSSRuleRules(CSSRule):
         # check and optionally parse rule
         if isinstance(rule, str):
             tempsheet = cssutils.css.CSSStyleSheet()
-            tempsheet.cssText = rule
+            sheet = self.parentStyleSheet
+            if sheet is not None:
+                # the namespaces of the sheet apply to the new rule as well
+                tempsheet.cssText = (rule, sheet._namespaces)
+            else:
+                tempsheet.cssText = rule
             if len(tempsheet.cssRules) != 1 or (
                 tempsheet.cssRules
                 and not isinstance(tempsheet.cssRules[0], cssutils.css.CSSRule)
